@@ -1,6 +1,7 @@
 import MxlVerif.Lemmas.C15Metric
 import MxlVerif.Lemmas.C15Rel
 import MxlVerif.Lemmas.C15RelNorm
+import MxlVerif.Lemmas.C15RelVec
 import MxlVerif.Generated.C15Loop
 /-!
 C15 — steady-state results are steady states; absence is reported as failure.
@@ -115,6 +116,17 @@ theorem C15_rel_accumulation_fails_iff (d y0 tol : Rat) (hd : 0 < d) (hy : 0 < y
   simp only [accRelFails, decide_eq_true_eq]
   rw [C15_loop_copies, C15_loop_checks_solver]
   exact rel_accumulation_none_iff d y0 tol hd hy ht (Gen.maxSteps - 1)
+
+/-- ... and for SEVERAL accumulating variables (all rates and all values positive): the relative step `Σ (d_i/(y_i+m·d_i))²` only
+shrinks with `m`, so the search is reported as failure if and only if the LAST comparison of the budget is still not small
+(`accRelVecFails`, evaluated by the driver as the class predicate of F-C15-2 in more than one dimension). -/
+theorem C15_rel_accumulation_vec_fails_iff (y d : List Rat) (h : posPair y d) (tol : Rat) (ht : 0 < tol) :
+    ssRun Gen.copies Gen.checks (accStep d) (fun _ => true) (smallRel tol) Gen.maxSteps y = .noSteadyState ↔
+      accRelVecFails tol d y Gen.maxSteps = true := by
+  rw [C15_loop_copies, C15_loop_checks_solver]
+  have := rel_accumulation_vec_none_iff y d h tol ht (Gen.maxSteps - 1)
+  simp only [accRelVecFails, Bool.not_eq_true']
+  exact this
 
 /-- ... and the finding itself: dx/dt = 1 (d = 100 per step) from x = 100001 with tolerance 1e-3 is reported as a steady
 state at the first step (kernel-evaluated), through `get_result()` as one row at t = 100 with x = 100101. -/
